@@ -812,7 +812,9 @@ def judge(ctx, c, small, st):
                                   small)
                 elif not np.all(np.isfinite(r)):
                     ctx.violation(key + '-nonfinite', '%s profile not finite' % g['kind'], small, dict(profile=r))
-                elif r.min() < lo * (1 - 1e-10) or r.max() > hi * (1 + 1e-10):
+                # (rounding is not modelled: a linear interpolant's absolute rounding error scales with the LARGEST of the
+                # control values it combines — next to a node of 0.07 a node of 2e-12 comes back 6e-18 off, 3e-6 of itself)
+                elif r.min() < lo * (1 - 1e-10) - 8e-16 * abs(hi) or r.max() > hi * (1 + 1e-10):
                     ctx.violation(key + '-out-of-range', '%s profile leaves the range of its control values'
                                   % g['kind'], small, dict(lo=lo, hi=hi, min=float(r.min()), max=float(r.max())))
                 elif g['kind'] == 'power' and r.min() <= 0:
